@@ -45,7 +45,7 @@ pub fn run_scenario_with(scn: &Scenario, hooks: bool, x: &ExploreOpts, mut onlin
         for ph in &scn.phases {
             match ph {
                 Phase::Eq => phase_eq(scn, unsafe { &*gp }, &w),
-                Phase::Seq { fail_at } => phase_seq(unsafe { &mut *gp }, *fail_at, &w),
+                Phase::Seq { fail_at } => phase_seq(scn, unsafe { &mut *gp }, *fail_at, &w),
                 Phase::GraphInfo => phase_graph_info(unsafe { &*gp }, &w),
                 Phase::Runs { runs, steps } if scn.threads && runs.len() >= 2 => {
                     let mut log = std::mem::take(&mut w.borrow_mut().log);
@@ -155,6 +155,13 @@ fn phase_eq(scn: &Scenario, g: &FnGraph<Node>, w: &W) {
         log(json!(format!("tag-{}", i + 1)), &o);
     }
     // one edge call changed: kind, or one endpoint
+    // (variants that redirect an edge may name any function: they are built with all functions added up front)
+    let upfront = {
+        let mut o = scn.clone();
+        o.calls.retain(|c| !matches!(c, BCall::Fn));
+        o
+    };
+    let scn = &upfront;
     for (ci, c) in scn.calls.iter().enumerate() {
         if let BCall::Edge { kind, a, b } = c {
             let mut o = scn.clone();
@@ -191,7 +198,7 @@ fn tags_of(scn: &Scenario) -> Vec<u32> {
         .collect()
 }
 
-fn phase_seq(g: &mut FnGraph<Node>, fail_at: usize, w: &W) {
+fn phase_seq(scn: &Scenario, g: &mut FnGraph<Node>, fail_at: usize, w: &W) {
     let ev = |api: &str, order: Vec<usize>, res: &str, w: &W| {
         w.borrow_mut()
             .ev(json!({"ev":"seq","api":api,"order":order,"res":res,"fail_at":fail_at}));
@@ -238,6 +245,60 @@ fn phase_seq(g: &mut FnGraph<Node>, fail_at: usize, w: &W) {
         });
         (seen, if r.is_ok() { "ok" } else { "err" })
     });
+    // walks over two DIFFERENT graph values in progress at the same time (the sequential APIs take `&mut self`, which
+    // only rules out a second walk over the same value): nested in the closure, and two zipped lazy `map` iterators
+    if let Some(mut g2) = build_quiet(scn) {
+        let n = g.node_count();
+        guarded!("for_each_nested", {
+            let mut v = Vec::new();
+            let mut inner_ok = true;
+            g.for_each(|a| {
+                v.push(a.id);
+                let mut inner = Vec::new();
+                g2.for_each(|b| inner.push(b.id));
+                inner_ok &= inner.len() == n;
+            });
+            (v, if inner_ok { "ok" } else { "inner_short" })
+        });
+        guarded!("fold_nested", {
+            let v = g.fold(Vec::new(), |mut v, a| {
+                v.push(a.id);
+                let _ = g2.fold(0usize, |k, _| k + 1);
+                v
+            });
+            (v, "ok")
+        });
+        guarded!("try_fold_nested", {
+            let mut seen = Vec::new();
+            let r = g.try_fold(0usize, |k, a| {
+                seen.push(a.id);
+                let _: Result<usize, ()> = g2.try_fold(0usize, |j, _| Ok(j + 1));
+                if k + 1 == fail_at { Err(a.id) } else { Ok(k + 1) }
+            });
+            (seen, if r.is_ok() { "ok" } else { "err" })
+        });
+        guarded!("try_for_each_nested", {
+            let mut seen = Vec::new();
+            let r = g.try_for_each(|a| {
+                seen.push(a.id);
+                let _: Result<(), ()> = g2.try_for_each(|_| Ok(()));
+                if seen.len() == fail_at { Err(a.id) } else { Ok(()) }
+            });
+            (seen, if r.is_ok() { "ok" } else { "err" })
+        });
+        guarded!("map_zip_left", {
+            let pairs: Vec<(usize, usize)> = g.map(|a| a.id).zip(g2.map(|b| b.id)).collect();
+            let left: Vec<usize> = pairs.iter().map(|p| p.0).collect();
+            let right: Vec<usize> = pairs.iter().map(|p| p.1).collect();
+            ev("map_zip_right", right, "ok", w);
+            (left, "ok")
+        });
+        guarded!("inner_after_nested", {
+            let mut v = Vec::new();
+            g2.for_each(|b| v.push(b.id));
+            (v, "ok")
+        });
+    }
     guarded!("iter_insertion", (g.iter_insertion().map(|n| n.id).collect::<Vec<_>>(), "ok"));
     guarded!("iter_insertion_rev", (g.iter_insertion().rev().map(|n| n.id).collect::<Vec<_>>(), "ok"));
     guarded!("iter_insertion_mut", (g.iter_insertion_mut().map(|n| { n.touched += 1; n.id }).collect::<Vec<_>>(), "ok"));
@@ -260,6 +321,43 @@ fn gi_edges(gi: &GraphInfo<u32>) -> Value {
 
 fn gi_nodes(gi: &GraphInfo<u32>) -> Vec<u32> {
     gi.iter_insertion_with_indices().map(|(_, t)| *t).collect()
+}
+
+#[derive(serde::Serialize, serde::Deserialize, PartialEq, Clone, Debug)]
+enum NodeKind {
+    Unit,
+    Newtype(u32),
+    Struct { id: u32, name: String },
+}
+
+/// GraphInfo with node infos of type `T`: serde_json (and YAML) round trip, equality both ways, same edges.
+fn rt_kind<T>(g: &FnGraph<Node>, w: &W, kind: &str, f: impl Fn(&Node) -> T)
+where
+    T: serde::Serialize + serde::de::DeserializeOwned + PartialEq + Clone + std::fmt::Debug,
+{
+    let gi = GraphInfo::from_graph(g, |n| f(n));
+    let edges = |x: &GraphInfo<T>| -> Vec<(usize, usize, &'static str)> {
+        x.raw_edges().iter().map(|e| (e.source().index() + 1, e.target().index() + 1, kind_str(&e.weight))).collect()
+    };
+    let mut report = |codec: &str, back: Result<GraphInfo<T>, String>| match back {
+        Ok(gi2) => {
+            let same_nodes = gi.iter_insertion_with_indices().map(|(_, t)| t.clone()).collect::<Vec<_>>()
+                == gi2.iter_insertion_with_indices().map(|(_, t)| t.clone()).collect::<Vec<_>>();
+            w.borrow_mut().ev(json!({"ev":"graph_info_rt2","kind":kind,"codec":codec,"ok":true,
+                "equal":gi == gi2 && gi2 == gi && same_nodes && edges(&gi) == edges(&gi2),"err":""}));
+        }
+        Err(e) => {
+            w.borrow_mut().ev(json!({"ev":"graph_info_rt2","kind":kind,"codec":codec,"ok":false,"equal":false,"err":e}));
+        }
+    };
+    match serde_json::to_string(&gi) {
+        Ok(s) => report("json", serde_json::from_str::<GraphInfo<T>>(&s).map_err(|e| e.to_string())),
+        Err(e) => report("json", Err(format!("serialise: {e}"))),
+    }
+    match serde_yaml_ng::to_string(&gi) {
+        Ok(s) => report("yaml", serde_yaml_ng::from_str::<GraphInfo<T>>(&s).map_err(|e| e.to_string())),
+        Err(e) => report("yaml", Err(format!("serialise: {e}"))),
+    }
 }
 
 fn phase_graph_info(g: &FnGraph<Node>, w: &W) {
@@ -292,6 +390,24 @@ fn phase_graph_info(g: &FnGraph<Node>, w: &W) {
             w.borrow_mut().ev(json!({"ev":"gi_iter","seq":gi.iter().map(pos).collect::<Vec<_>>()}));
             w.borrow_mut().ev(json!({"ev":"gi_iter_rev","seq":gi.iter_rev().map(pos).collect::<Vec<_>>()}));
         }
+        // node infos of other shapes through the same round trip: the (de)serialisation of GraphInfo must not depend on
+        // what the caller's node info is
+        rt_kind(g, w, "u128", |n| n.tag as u128 * 7 + n.id as u128);
+        rt_kind(g, w, "i128", |n| -(n.id as i128));
+        rt_kind(g, w, "u64_big", |n| u64::MAX - n.id as u64);
+        rt_kind(g, w, "enum", |n| match n.id % 3 {
+            0 => NodeKind::Unit,
+            1 => NodeKind::Newtype(n.tag),
+            _ => NodeKind::Struct { id: n.id as u32, name: format!("f{}", n.id) },
+        });
+        rt_kind(g, w, "int_map", |n| {
+            let mut m = std::collections::BTreeMap::new();
+            m.insert(n.id as u32, n.tag);
+            m.insert(1000 + n.id as u32, 0);
+            m
+        });
+        rt_kind(g, w, "option_tuple", |n| (if n.id % 2 == 0 { Some(n.tag) } else { None }, n.id as i64, n.id % 2 == 0));
+        rt_kind(g, w, "string", |n| format!("fn {} \"{}\"", n.id, n.tag));
         // a differing GraphInfo compares unequal
         let gi3 = GraphInfo::from_graph(g, |n| n.tag * 7 + n.id as u32 + 1);
         w.borrow_mut().ev(json!({"ev":"gi_neq","n":g.node_count(),"res": gi == gi3}));
